@@ -226,6 +226,18 @@ func (signatureVerification *SignatureVerification) GetVerificationLevel() (*Ver
 	return customVerificationLevel, nil
 }
 
+// clone returns a deep copy of signatureVerification
+func (signatureVerification SignatureVerification) clone() SignatureVerification {
+	if signatureVerification.Override != nil {
+		override := make(map[ValidationType]ValidationAction, len(signatureVerification.Override))
+		for k, v := range signatureVerification.Override {
+			override[k] = v
+		}
+		signatureVerification.Override = override
+	}
+	return signatureVerification
+}
+
 func getDocument(path string, v any) error {
 	path, err := dir.ConfigFS().SysPath(path)
 	if err != nil {
